@@ -166,8 +166,9 @@ func (f *Frame) builtin(bi *BInfo, fv *ssa.Builtin, c *ssa.CallCommon, args []T,
 		case *types.Slice:
 			return []T{intT(slLen(a.S))}
 		case *types.Map:
-			card := g.mapCard(st, a.S)
+			card := g.mapCard(st, a)
 			g.assert(sLe("0", card))
+			g.cardFacts(st, a, bi.R)
 			return []T{intT(sIte(sEq(a.S, "0"), "0", card))}
 		case *types.Array:
 			return []T{intT(fmt.Sprint(u.Len()))}
@@ -209,7 +210,10 @@ func (f *Frame) builtin(bi *BInfo, fv *ssa.Builtin, c *ssa.CallCommon, args []T,
 		return []T{intT(n)}
 	case "delete":
 		m, k := args[0], args[1]
-		f.frameCheck(bi, "MapV", m.S, "delete from map")
+		{
+			va, _, _, _ := g.mapArrs(m.GT.Underlying().(*types.Map))
+			f.frameCheck(bi, va, m.S, "delete from map")
+		}
 		g.mapDelete(st, m, k.S)
 		return nil
 	case "min", "max":
@@ -320,6 +324,7 @@ func (f *Frame) frameCheckIf(bi *BInfo, cond, arr, ref, what string) {
 
 type mapRange struct {
 	m    T
+	ord  string // the (fixed, unknown) order in which this iteration produces keys: Int -> K
 	it   string // iterator reference
 	has0 string // key set at the start of the iteration
 	str  bool
@@ -342,7 +347,9 @@ func (f *Frame) rangeInstr(bi *BInfo, x *ssa.Range) {
 	seenArr := "IterSeen:" + typeKey(mt.Key())
 	g.setArr(st, seenArr, hsort, sto(g.arr(st, seenArr, hsort), it, fmt.Sprintf("((as const %s) false)", hsort)))
 	g.setArr(st, "IterCnt", "Int", sto(g.arr(st, "IterCnt", "Int"), it, "0"))
-	f.rangeIt[x] = &mapRange{m: m, it: it, has0: has0}
+	// prophecy of the iteration order: an arbitrary but fixed sequence of keys
+	ord := g.freshConst("order:"+f.tag, fmt.Sprintf("(Array Int %s)", ks))
+	f.rangeIt[x] = &mapRange{m: m, it: it, has0: has0, ord: ord}
 	f.setVal(x, mk(it, "Int", x.Type()))
 }
 
@@ -352,6 +359,11 @@ func (f *Frame) nextInstr(bi *BInfo, x *ssa.Next) {
 	mr := f.rangeIt[x.Iter]
 	tt := x.Type().(*types.Tuple)
 	kt, vt := tt.At(1).Type(), tt.At(2).Type()
+	if mr != nil && !mr.str {
+		// unused range variables have an invalid type in SSA: take the map's types
+		mt := mr.m.GT.Underlying().(*types.Map)
+		kt, vt = mt.Key(), mt.Elem()
+	}
 	ok := g.freshConst("next:ok:"+f.tag, "Bool")
 	k := mk(g.freshConst("next:k:"+f.tag, g.sortOf(kt)), g.sortOf(kt), kt)
 	v := mk(g.freshConst("next:v:"+f.tag, g.sortOf(vt)), g.sortOf(vt), vt)
@@ -375,6 +387,13 @@ func (f *Frame) nextInstr(bi *BInfo, x *ssa.Next) {
 	curHas := sel(sel(g.arr(st, ha, hsort), mr.m.S), kq)
 	g.assert(sImp(sAnd(bi.R, sNot(ok), sNot(sEq(mr.m.S, "0"))),
 		sForallS(kq, ks, sImp(sAnd(sel(mr.has0, kq), curHas), sel(sel(seen, mr.it), kq)))))
+	// the i-th iteration produces key ord[i]; seen(k) <=> k is among ord[0..cnt)
+	g.assert(sImp(sAnd(bi.R, ok), sEq(k.S, sel(mr.ord, sel(cnt, mr.it)))))
+	ka := sel(mr.ord, "i!s")
+	g.assert(sImp(bi.R, "(forall ((i!s Int)) (! "+sImp(sAnd(sLe("0", "i!s"), sLt("i!s", sel(cnt, mr.it))), sel(sel(seen, mr.it), ka))+" :pattern ("+ka+")))"))
+	sk := sel(sel(seen, mr.it), "k!s")
+	g.assert(sImp(bi.R, "(forall ((k!s "+ks+")) (! "+sImp(sk, "(exists ((i!s Int)) (and (<= 0 i!s) (< i!s "+sel(cnt, mr.it)+") (= "+ka+" k!s)))")+" :pattern ("+sk+")))"))
+	g.assert(sImp(bi.R, sLe("0", sel(cnt, mr.it))))
 	g.setArr(st, seenArr, hsort, sIte(ok, sto(seen, mr.it, sto(sel(seen, mr.it), k.S, "true")), seen))
 	g.setArr(st, "IterCnt", "Int", sIte(ok, sto(cnt, mr.it, sAdd(sel(cnt, mr.it), "1")), cnt))
 }
@@ -412,8 +431,8 @@ func (e *SpecEnv) modTargets(x ast.Expr, text string) []modEntry {
 				va, ha, ks, vs := g.mapArrs(mt)
 				g.arrReg[va] = fmt.Sprintf("(Array %s %s)", ks, vs)
 				g.arrReg[ha] = fmt.Sprintf("(Array %s Bool)", ks)
-				g.arrReg["MapCard"] = "Int"
-				return []modEntry{{va, m.S, text}, {ha, m.S, text}, {"MapCard", m.S, text}}
+				g.arrReg[cardArr(mt)] = "Int"
+				return []modEntry{{va, m.S, text}, {ha, m.S, text}, {cardArr(mt), m.S, text}}
 			case "fields":
 				p := e.eval(x.Args[0])
 				pt := derefType(p.GT)
@@ -467,7 +486,7 @@ func (e *SpecEnv) modTargets(x ast.Expr, text string) []modEntry {
 						ge := *e
 						ge.pkg = p
 						t := ge.resolveType(gd.Type)
-						l := g.globalLoc("ghost:"+p.Path()+"."+x.Sel.Name, t)
+						l := g.ghostLoc(p.Path(), x.Sel.Name, t)
 						g.arrReg[l.arr] = l.es
 						return []modEntry{{l.arr, "0", text}}
 					}
@@ -503,7 +522,7 @@ func (e *SpecEnv) modTargets(x ast.Expr, text string) []modEntry {
 	case *ast.Ident:
 		if gd, ok := g.cs.Ghosts[e.pkgPath()+"::"+x.Name]; ok {
 			t := e.resolveType(gd.Type)
-			l := g.globalLoc("ghost:"+e.pkgPath()+"."+x.Name, t)
+			l := g.ghostLoc(e.pkgPath(), x.Name, t)
 			g.arrReg[l.arr] = l.es
 			return []modEntry{{l.arr, "0", text}}
 		}
@@ -703,4 +722,18 @@ func (f *Frame) funcValueHook(bi *BInfo, c *ssa.CallCommon, fv T, args []T) ([]T
 	recv := f.val(fa.X)
 	all := append([]T{recv}, args...)
 	return f.applyContractSig(bi, fc, sig, "this", all, shortPath(ck)), true
+}
+
+// cardFacts links the cardinality of map m to its key set in the current state:
+// card == 0  <=>  no key is present (instantiated for this map and state).
+func (g *Gen) cardFacts(st *State, m T, guard string) {
+	mt := m.GT.Underlying().(*types.Map)
+	_, ha, ks, _ := g.mapArrs(mt)
+	hsort := fmt.Sprintf("(Array %s Bool)", ks)
+	hm := sel(g.arr(st, ha, hsort), m.S)
+	card := g.mapCard(st, m)
+	w := g.freshConst("cardwit", ks)
+	g.assert(sImp(guard, sAnd(
+		sImp(sEq(card, "0"), sForallS("k!c", ks, sNot(sel(hm, "k!c")))),
+		sImp(sLt("0", card), sel(hm, w)))))
 }
